@@ -182,7 +182,7 @@ func Generate(rng *rand.Rand, prop, tier string, gomaxprocs int) *Desc {
 	gen = func(pi, depth int) ExecD {
 		p := programs[pi].P
 		mix := mixFor(rng, prop)
-		x := ExecD{Prog: pi, TaskOut: map[int]int{}, PredOut: map[int]int{}, Len: map[int]int{}, PanicKind: rng.Intn(4), Colls: map[int]*CollD{}}
+		x := ExecD{Prog: pi, TaskOut: map[int]int{}, PredOut: map[int]int{}, Len: map[int]int{}, PanicKind: rng.Intn(7), Colls: map[int]*CollD{}}
 		x.Conc = []int{1, 1, 2, 2, 3, 4, 8}[rng.Intn(7)]
 		x.Bools = [2]bool{rng.Intn(2) == 0, rng.Intn(4) == 0}
 		if prop == "C08" && rng.Intn(5) != 0 {
